@@ -30,4 +30,41 @@ theorem query_rollback_status_shipped_run (s : BmcState) :
       (s, .ok (.optNatPair none (match s.hpm.rollbackEstimate with | some 0 => none | e => e))) := by
   rcases he : s.hpm.rollbackEstimate with _ | _ | n <;> simp [api_query_rollback_status_shipped, api_eval, he]
 
+/-! ### Get Component Properties: the description string -/
+
+theorem filter_padTo (d : List Nat) (h : DescrWf d) : (padTo 12 d).filter (· != 0) = d := by
+  obtain ⟨hl, hc⟩ := h
+  have h1 : d.filter (· != 0) = d := by
+    rw [List.filter_eq_self]; intro c hm; have := (hc c hm).1; simp; omega
+  simp [padTo, List.take_append, List.take_of_length_le hl, List.filter_append, h1, List.take_replicate, List.filter_replicate]
+  intro a ha
+  have := List.mem_of_mem_take ha
+  simpa using this
+
+theorem padTo_cons (n : Nat) (d : List Nat) : ∃ a t, padTo (n + 1) d = a :: t := by
+  have h := padTo_length (n + 1) d
+  rcases hp : padTo (n + 1) d with _ | ⟨a, t⟩
+  · rw [hp] at h; simp at h
+  · exact ⟨a, t, rfl⟩
+
+/-- the description selector is property 2 of HPM.1 table 3-5 -/
+theorem hpmDescriptionSelector_law : hpmDescriptionSelector = 2 := by decide
+
+/-- INTENDED get_component_property(id, PROPERTY_DESCRIPTION_STRING): exactly the characters the IPMC holds for
+an existing component, CompletionCodeError(82h) for a component that does not exist -/
+theorem get_component_description_refines (id : Nat) (s : BmcState) (h : id < 256)
+    (hw : DescrWf (get_component_description id s)) :
+    (api_get_component_description id).run s =
+      present (s, if has_component id s then .text (get_component_description id s) else .error ccHpmInvalidComponent) := by
+  have e1 : id % 256 = id := by omega
+  obtain ⟨a, t, ht⟩ := padTo_cons 11 (get_component_description id s)
+  have hf := filter_padTo _ hw
+  rw [ht] at hf
+  cases hc : has_component id s
+  · simp [api_get_component_description, getComponentDescription, api_eval, hpmDescriptionSelector_law, present,
+      Result.toOutcome, ccHpmInvalidComponent, e1, hc]
+  · simp [api_get_component_description, getComponentDescription, descrOf, api_eval, hpmDescriptionSelector_law, present,
+      Result.toOutcome, component_property, e1, hc, ht]
+    simpa using hf
+
 end PyIpmi.Lemmas.Api
